@@ -70,9 +70,31 @@ func (s *JSONFileStorage) Stop() error {
 	if err != nil {
 		return fmt.Errorf("failed to marshal json storage: %w", err)
 	}
-	err = os.WriteFile(s.filename, data, 0o0644) //nolint:gosec // no secrets
+	// Write to a temporary file in the same directory and rename it into place,
+	// so that a crash never leaves a half-written state file behind.
+	err = writeFileAtomic(s.filename, data, 0o0644)
 	if err != nil {
 		return fmt.Errorf("failed to write json storage to %s: %w", s.filename, err)
 	}
 	return nil
+}
+
+func writeFileAtomic(filename string, data []byte, perm os.FileMode) error {
+	tmpName := filename + ".tmp"
+	f, err := os.OpenFile(tmpName, os.O_WRONLY|os.O_CREATE|os.O_TRUNC, perm) //nolint:gosec // no secrets
+	if err != nil {
+		return err
+	}
+	_, err = f.Write(data)
+	if err == nil {
+		err = f.Sync()
+	}
+	if closeErr := f.Close(); err == nil {
+		err = closeErr
+	}
+	if err != nil {
+		_ = os.Remove(tmpName)
+		return err
+	}
+	return os.Rename(tmpName, filename)
 }
